@@ -21,9 +21,17 @@ pub enum Ans {
     Fetch(u64),
     Drop,
     Panic,
+    /// answers 200 once the harness opens the gate: a handler that keeps its thread of the blocking pool busy
+    Gated,
+}
+static GATE: (Mutex<bool>, std::sync::Condvar) = (Mutex::new(false), std::sync::Condvar::new());
+fn set_gate(open: bool) {
+    *GATE.0.lock().unwrap() = open;
+    GATE.1.notify_all();
 }
 fn ans_json(a: &Ans) -> Value {
     match a {
+        Ans::Gated => json!({"k":"Normal","code":200,"max":[48]}),
         Ans::Normal(c) => json!({"k":"Normal","code":c,"max":[48]}),
         Ans::Fetch(m) => json!({"k":"Fetch","code":0,"max":adigits(*m)}),
         Ans::Drop => json!({"k":"Drop","code":0,"max":[48]}),
@@ -166,6 +174,11 @@ fn start_server(executor: &Arc<safina::executor::Executor>, small: usize, cache_
             Ans::Fetch(m) => Response::get_body_and_reprocess(m),
             Ans::Drop => Response::drop_connection(),
             Ans::Panic => panic!("scripted handler panic"),
+            Ans::Gated => {
+                let g = GATE.0.lock().unwrap();
+                let _g = GATE.1.wait_timeout_while(g, Duration::from_secs(20), |open| !*open).unwrap();
+                Response::text(200, format!("tag:{path}:{n}"))
+            }
         }
     };
     let permit = permit::Permit::new();
@@ -669,6 +682,87 @@ pub fn run_limits(args: &Args, mut out: Out) {
         let recs = servlin::verif::take();
         log_conn(&mut out, sid, &gone_server, &reqs, json!({"dirGone": true}), &recs, &cr, false, false, ended, 0);
     }
+    // ---- every thread of the handler pool busy while an upload is refused or abandoned: the temp file must be gone when
+    // the upload's connection has ended, not when some pool thread gets round to it ----
+    let busy_exec = safina::executor::Executor::new(2, 1).unwrap();
+    let busy = start_server(&busy_exec, 100, true, 20);
+    for j in 0..(if tier > 0 { 12 } else { 4 }) {
+        sid += 2;
+        let (sid_b, sid_a) = (sid - 1, sid);
+        if !out.wants(sid_b) {
+            continue;
+        }
+        let limit = [10u64, 200, 9000, 70_000][j % 4];
+        let over = j % 3 != 2; // two in three exceed the limit (413); the others are abandoned by the client half-way
+        // (an upload of undeclared length that exceeds the limit; or one of declared length that the client leaves half-way)
+        let qb = if over {
+            Req { kind: "unknown", declared: 0, body: body_bytes(sid_b, 0, limit as usize + 10), expect: false,
+                  answers: vec![Ans::Fetch(limit), Ans::Normal(200)], dir_gone: false, pad: 0, disk_fail: false }
+        } else {
+            Req { kind: "known", declared: 5000 + limit, body: body_bytes(sid_b, 0, 2500), expect: false,
+                  answers: vec![Ans::Fetch(100_000), Ans::Normal(200)], dir_gone: false, pad: 0, disk_fail: false }
+        };
+        let qa = Req { kind: "none", declared: 0, body: vec![], expect: false, answers: vec![Ans::Gated], dir_gone: false, pad: 0, disk_fail: false };
+        {
+            let mut g = busy.script.lock().unwrap();
+            g.clear();
+            g.insert(format!("/s{sid_b}/r1"), (qb.answers.clone(), 0));
+            g.insert(format!("/s{sid_a}/r1"), (qa.answers.clone(), 0));
+        }
+        busy.calls.lock().unwrap().clear();
+        set_gate(false);
+        servlin::verif::start();
+        let hcalls = |port: u16| servlin::verif::snapshot().iter().filter(|r| r.kind == "HCall" && r.a == u64::from(port)).count();
+        let wait_for = |f: &dyn Fn() -> bool| {
+            let deadline = Instant::now() + Duration::from_secs(10);
+            while !f() && Instant::now() < deadline {
+                std::thread::sleep(Duration::from_micros(300));
+            }
+            f()
+        };
+        // B: the head of an upload of undeclared length; its handler asks for the body
+        let mut b = std::net::TcpStream::connect(busy.addr).unwrap();
+        let port_b = b.local_addr().unwrap().port();
+        b.set_read_timeout(Some(Duration::from_secs(10))).unwrap();
+        b.write_all(&qb.head(&format!("/s{sid_b}/r1"))).unwrap();
+        let ok1 = wait_for(&|| hcalls(port_b) >= 1);
+        // A: a request whose handler holds the only pool thread
+        let mut a = std::net::TcpStream::connect(busy.addr).unwrap();
+        let port_a = a.local_addr().unwrap().port();
+        a.set_read_timeout(Some(Duration::from_secs(25))).unwrap();
+        a.write_all(&qa.head(&format!("/s{sid_a}/r1"))).unwrap();
+        let ok2 = wait_for(&|| hcalls(port_a) >= 1);
+        // B: the body
+        let _ = b.write_all(&qb.body);
+        let mut got_b = vec![];
+        let mut reset_b = false;
+        if over {
+            let _ = b.shutdown(std::net::Shutdown::Write);
+            if b.read_to_end(&mut got_b).is_err() {
+                reset_b = true;
+            }
+        } else {
+            drop(b); // gone half-way, without reading
+            reset_b = true;
+        }
+        let ended_b = wait_conn_end(&[port_b]);
+        let files_b = count_files(&busy); // A's handler still holds the pool
+        set_gate(true);
+        let mut got_a = vec![];
+        let _ = a.shutdown(std::net::Shutdown::Write);
+        let reset_a = a.read_to_end(&mut got_a).is_err();
+        let ended_a = wait_conn_end(&[port_a]);
+        let recs = servlin::verif::take();
+        let files_a = count_files(&busy);
+        if !(ok1 && ok2) {
+            missed_deadline();
+        }
+        let crb = ClientResult { got: got_b, reset: reset_b, port: port_b };
+        let cra = ClientResult { got: got_a, reset: reset_a, port: port_a };
+        log_conn(&mut out, sid_b, &busy, &[qb], json!({"poolBusy": true, "cut": !over}), &recs, &crb, !over, false, ended_b, files_b);
+        log_conn(&mut out, sid_a, &busy, &[qa], json!({"poolBusy": true}), &recs, &cra, false, true, ended_a, files_a);
+    }
+    set_gate(true);
     take_panics();
     out.finish();
 }
